@@ -24,7 +24,9 @@ def record(path, data, mtime, header, ims_cls, method, maxread):
         ims = spell_date(ts, record.spelling)
         record.spelling = (record.spelling + 1) % 7
     elif ims_cls == 'junk':
-        ims = 'yesterday-ish'
+        # a header that is no date at all, in several spellings (also present but empty)
+        ims = ['yesterday-ish', '', ' ', ';', 'Thu, 32 Foo 2020 25:61:61 GMT', '0', '-1', ';;x'][record.junk % 8]
+        record.junk += 1
     out = {}
     for m in (method, 'HEAD'):
         status, headers, chunks, errs = sl.serve(os.path.basename(path), os.path.dirname(path), method=m, rng=header, ims=ims)
@@ -56,6 +58,7 @@ def record(path, data, mtime, header, ims_cls, method, maxread):
 
 
 record.spelling = 0
+record.junk = 0
 
 
 def spell_date(ts, how):
